@@ -1,6 +1,8 @@
 import S3db.Model.AList
 import S3db.Model.Value
 import S3db.Model.Kv
+import S3db.Model.Row
+import S3db.Model.Table
 import S3db.Gen.Crdt
 import S3db.Gen.Key
 /-!
@@ -96,6 +98,94 @@ def kvStep (st : KvState) (args : List String) : KvState × String :=
     (st, " ".intercalate (ds.map fun p => p.1 ++ "=" ++ p.2))
   | _ => (st, "bad-op")
 
+/-! ## rows and tables (values are opaque tokens) -/
+
+open S3db.Row S3db.Table in
+/-- `<deleted 0|1> <dut> <ncols> (<name> <val> <t>)*` ; returns the row and the remaining tokens -/
+def parseCols : Nat → List String → List (String × ACol String) → Option (List (String × ACol String) × List String)
+  | 0, rest, acc => some (acc.reverse, rest)
+  | n + 1, name :: val :: t :: rest, acc =>
+    match t.toInt? with
+    | some t => parseCols n rest ((name, { v := val, t := t }) :: acc)
+    | none => none
+  | _, _, _ => none
+
+open S3db.Row in
+def parseRow (toks : List String) : Option (ARow String × List String) :=
+  match toks with
+  | d :: dut :: n :: rest =>
+    match dut.toInt?, n.toNat? with
+    | some dut, some n =>
+      match parseCols n rest [] with
+      | some (cols, rest') => some ({ deleted := d == "1", dut := dut, cols := cols }, rest')
+      | none => none
+    | _, _ => none
+  | _ => none
+
+def parsePairs : Nat → List String → List (String × String) → Option (List (String × String))
+  | 0, [], acc => some acc.reverse
+  | n + 1, c :: v :: rest, acc => parsePairs n rest ((c, v) :: acc)
+  | _, _, _ => none
+
+open S3db.Row in
+def showRow (r : ARow String) : String :=
+  let cs := sortByKey (r.cols.map fun p => (p.1, s!"{p.2.v}@{p.2.t}"))
+  s!"d={if r.deleted then 1 else 0} dut={r.dut} " ++ ",".intercalate (cs.map fun p => p.1 ++ "=" ++ p.2)
+
+open S3db.Row in
+def rowStep (args : List String) : String :=
+  match args with
+  | "merge" :: rest =>
+    match parseRow rest with
+    | some (r1, rest') =>
+      match parseRow rest' with
+      | some (r2, []) => showRow (mergeRows r1 r2)
+      | _ => "bad-op"
+    | none => "bad-op"
+  | _ => "bad-op"
+
+abbrev TblState := AList String (S3db.Table.Table String String)
+
+open S3db.Row S3db.Table in
+def tblStep (st : TblState) (args : List String) : TblState × String :=
+  let h (n : String) : Table String String := (lookup n st).getD []
+  match args with
+  | ["new", n] => (insert n [] st, "ok")
+  | "insert" :: n :: w :: k :: cnt :: rest =>
+    match w.toInt?, cnt.toNat? with
+    | some w, some cnt =>
+      match parsePairs cnt rest [] with
+      | some vals =>
+        match insertRow (h n) w k vals with
+        | .ok t' => (insert n t' st, "ok")
+        | .error .constraintPK => (st, "constraint_pk")
+        | .error .constraintNotNull => (st, "constraint_notnull")
+      | none => (st, "bad-op")
+    | _, _ => (st, "bad-op")
+  | "update" :: n :: w :: k :: cnt :: rest =>
+    match w.toInt?, cnt.toNat? with
+    | some w, some cnt =>
+      match parsePairs cnt rest [] with
+      | some vals => (insert n (updateRow (h n) w k vals) st, "ok")
+      | none => (st, "bad-op")
+    | _, _ => (st, "bad-op")
+  | ["delete", n, w, k] =>
+    match w.toInt? with
+    | some w => (insert n (deleteRow (h n) w k) st, "ok")
+    | none => (st, "bad-op")
+  | ["clone", n, m] => (insert m (h n) st, "ok")
+  | ["merge", n, g] => (insert n (mergeTables (h n) (h g)) st, "ok")
+  | ["dump", n] =>
+    let es := sortByKey ((h n).map fun p => (p.1, s!"[{p.2.mod}] " ++ showRow p.2.row))
+    (st, " ; ".intercalate (es.map fun p => p.1 ++ ": " ++ p.2))
+  | ["visible", n] =>
+    let es := sortByKey ((h n).filterMap fun p =>
+      match visible p.2.row with
+      | some cols => some (p.1, ",".intercalate ((sortByKey (cols.map fun c => (c.1, c.2.v))).map fun c => c.1 ++ "=" ++ c.2))
+      | none => none)
+    (st, " ; ".intercalate (es.map fun p => p.1 ++ ": " ++ p.2))
+  | _ => (st, "bad-op")
+
 /-! ## keys -/
 
 def showOptInt (o : Option Int) : String := match o with | some i => toString i | none => "panic"
@@ -110,12 +200,15 @@ def keyStep (args : List String) : String :=
 
 structure State where
   kv : KvState := []
+  tbl : TblState := []
 
 def step (st : State) (line : String) : State × String :=
   match (line.trimAscii.toString.splitOn " ").filter (· ≠ "") with
   | "#" :: _ => (st, line.trimAscii.toString)
   | "kv" :: rest => let (k, out) := kvStep st.kv rest; ({ st with kv := k }, out)
   | "key" :: rest => (st, keyStep rest)
+  | "row" :: rest => (st, rowStep rest)
+  | "tbl" :: rest => let (t, out) := tblStep st.tbl rest; ({ st with tbl := t }, out)
   | "reset" :: _ => ({}, "ok")
   | _ => (st, "bad-op")
 
